@@ -141,12 +141,21 @@ class Unsavable(OutProc):
         super().__init__(inputs=inputs, **kwargs)
 
 
+class LateFail(OutProc):
+    """finishes, and then fails in its on_finished hook (after super()): the process ends EXCEPTED with a NEW future; whoever waits
+    for the outcome must be told the error, not the outputs of the future that existed before"""
+
+    def on_finished(self):
+        super().on_finished()
+        raise RuntimeError('late failure')
+
+
 class BadCtor(_Base):
     def __init__(self, *args, **kwargs):
         raise RuntimeError('constructor refused')
 
 
-CLASSES = {c.__name__: c for c in (OutProc, OutAlt, RaiseProc, StepsProc, WaitProc, HoldProc, BadCtor, Unsavable)}
+CLASSES = {c.__name__: c for c in (OutProc, OutAlt, RaiseProc, StepsProc, WaitProc, HoldProc, BadCtor, Unsavable, LateFail)}
 # short class token of the line protocol <-> class
 TOKENS = {'Out': OutProc, 'Alt': OutAlt, 'Raise': RaiseProc, 'Steps': StepsProc, 'Wait': WaitProc, 'Hold': HoldProc,
           'Bad': BadCtor}
